@@ -29,7 +29,7 @@ static long toInt(double x) {
     return static_cast<long>(r);
 }
 
-static json observe(const EclipseGrid& grid, const UnitSystem& us) {
+static json observe(const EclipseGrid& grid, const UnitSystem& us, bool wedge = false) {
     using M = UnitSystem::measure;
     json o;
     g_inexact = false;
@@ -46,7 +46,7 @@ static json observe(const EclipseGrid& grid, const UnitSystem& us) {
         const auto ijk = grid.getIJK(g);
         if (grid.getGlobalIndex(ijk[0], ijk[1], ijk[2]) != g) ijk_ok = false;
         if (active && grid.activeIndex(ijk[0], ijk[1], ijk[2]) != grid.activeIndex(g)) ijk_ok = false;
-        vol.push_back(toInt(us.from_si(M::geometric_volume, grid.getCellVolume(g))));
+        vol.push_back(toInt(4 * us.from_si(M::geometric_volume, grid.getCellVolume(g))));
         if (std::fabs(grid.getCellVolume(g) - grid.getCellVolume(ijk[0], ijk[1], ijk[2])) > 0) ijk_ok = false;
         // every accessor that exists in an (i,j,k) and a global-index form answers the same for the same cell
         try {
@@ -57,14 +57,15 @@ static json observe(const EclipseGrid& grid, const UnitSystem& us) {
             if (grid.cellActive(g) != grid.cellActive(ijk[0], ijk[1], ijk[2])) ijk_ok = false;
             if (std::fabs(grid.getCellThickness(g) - grid.getCellDims(g)[2]) > 1e-9 * std::max(1.0, grid.getCellDims(g)[2])) ijk_ok = false;
         } catch (const std::exception&) { ijk_ok = false; }
-        d2.push_back(toInt(2 * us.from_si(M::length, grid.getCellDepth(g))));
+        d2.push_back(toInt(8 * us.from_si(M::length, grid.getCellDepth(g))));
         const auto cd = grid.getCellDims(g);
-        dims.push_back({toInt(us.from_si(M::length, cd[0])), toInt(us.from_si(M::length, cd[1])), toInt(us.from_si(M::length, cd[2]))});
+        // (the horizontal extents of a wedge cell are lengths of slanted edges, not integers)
+        dims.push_back({wedge ? 0L : toInt(4 * us.from_si(M::length, cd[0])), wedge ? 0L : toInt(4 * us.from_si(M::length, cd[1])), toInt(4 * us.from_si(M::length, cd[2]))});
         // the centre's depth is the cell depth
         if (std::fabs(grid.getCellCenter(g)[2] - grid.getCellDepth(g)) > 1e-9 * std::max(1.0, grid.getCellDepth(g))) ijk_ok = false;
     }
-    for (const auto v : grid.activeVolume()) avol.push_back(toInt(us.from_si(M::geometric_volume, v)));
-    o["a2g"] = a2g; o["g2a"] = g2a; o["vol"] = vol; o["avol"] = avol; o["depth2"] = d2; o["dims"] = dims; o["actnum"] = act;
+    for (const auto v : grid.activeVolume()) avol.push_back(toInt(4 * us.from_si(M::geometric_volume, v)));
+    o["a2g"] = a2g; o["g2a"] = g2a; o["vol4"] = vol; o["avol4"] = avol; o["depth8"] = d2; o["dims4"] = dims; o["actnum"] = act;
     o["ijkOk"] = ijk_ok;
     o["exact"] = !g_inexact;
     return o;
@@ -82,6 +83,7 @@ int main(int argc, char** argv) {
         tr.emit({{"e", "Reset"}, {"id", id++}});
         std::unique_ptr<EclipseGrid> grid;
         UnitSystem us(UnitSystem::UnitType::UNIT_TYPE_METRIC);
+        bool wedge = false;
         for (const auto& op : sc["ops"]) {
             const std::string k = op["op"];
             json ev = {{"e", k}};
@@ -90,7 +92,9 @@ int main(int argc, char** argv) {
                     const auto deck = parser.parseString(op["deck"].get<std::string>());
                     us = deck.getActiveUnitSystem();
                     grid = std::make_unique<EclipseGrid>(deck);
-                    for (const char* f : {"dims", "dx", "dy", "dz", "tops", "shift", "actnum", "form", "units"}) ev[f] = op[f];
+                    for (const char* f : {"dims", "dx", "dy", "dz", "tops", "shift", "actnum", "form", "units", "wp"}) ev[f] = op[f];
+                    wedge = false;
+                    for (const auto& w : op["wp"]) if (w.get<int>() != 2) wedge = true;
                 } else if (k == "reset") {
                     grid->resetACTNUM(op["actnum"].get<std::vector<int>>());
                     ev["actnum"] = op["actnum"];
@@ -138,7 +142,7 @@ int main(int argc, char** argv) {
                     (void)grid->activeVolume();
                 }
                 ev["res"] = "ok";
-                if (grid && k != "threads") ev["obs"] = observe(*grid, us);
+                if (grid && k != "threads") ev["obs"] = observe(*grid, us, wedge);
             } catch (const std::exception& e) { ev["res"] = "error"; ev["what"] = e.what(); }
             tr.emit(ev);
         }
